@@ -389,6 +389,20 @@ class OperatorV:
         return "operator.%s" % self.name
 
 
+import re as _re
+_EXC_NAME = _re.compile(r"(Error|Exception|Warning|NotImplemented|Exit|Interrupt|StopIteration|StopAsyncIteration|NetworkX[A-Za-z]*)$")
+
+
+class ExcV:
+    """an exception instance (only its class name matters)"""
+
+    def __init__(self, name):
+        self.name = name
+
+    def __repr__(self):
+        return "<%s instance>" % self.name
+
+
 class ClosingV:
     def __init__(self, obj):
         self.obj = obj
@@ -433,6 +447,16 @@ class ItemGetterV:
 class PartialV:
     def __init__(self, f, args, kwargs):
         self.f, self.args, self.kwargs = f, args, kwargs
+
+
+class CountV:
+    """itertools.count(start, step): only meaningful inside zip / next"""
+
+    def __init__(self, start=0, step=1):
+        self.start, self.step = start, step
+
+    def __repr__(self):
+        return "count(%d)" % self.start
 
 
 class RepeatV:
@@ -625,6 +649,23 @@ class Interp:
             rhs = self.eval(st.value, env)
             self.assign(st.target, self.binop(cur, st.op, rhs, st), env, aug=(cur, st.op, rhs))
         elif isinstance(st, ast.Raise):
+            exc = st.exc
+            if exc is not None:
+                head = exc.func if isinstance(exc, ast.Call) else exc
+                last = head.attr if isinstance(head, ast.Attribute) else (head.id if isinstance(head, ast.Name) else None)
+                if last is not None and _EXC_NAME.search(last):
+                    if isinstance(exc, ast.Call):
+                        # the arguments are evaluated before anything is raised: a lookup made for the message can fail first
+                        for a in list(exc.args) + [k.value for k in exc.keywords]:
+                            try:
+                                self.eval(a, env)
+                            except (Unsupported, Fork):
+                                pass
+                else:
+                    v = self.eval(exc, env)          # ``raise helper()``: whatever the helper builds
+                    if isinstance(v, ExcV):
+                        raise AbstractRaise(v.name, st, explicit=True)
+                    raise Unsupported(st, "raise of %r" % (v,))
             raise AbstractRaise(self.exc_name(st.exc), st, explicit=True)
         elif isinstance(st, ast.Return):
             raise _Return(self.eval(st.value, env) if st.value is not None else NONE)
@@ -700,9 +741,16 @@ class Interp:
                     elif hasattr(v, "closed"):
                         v.closed = True
         elif isinstance(st, ast.FunctionDef):
-            if st.decorator_list:
-                raise Unsupported(st, "decorated local function")
-            env[st.name] = LocalFuncV(st, env)
+            val = LocalFuncV(st, env)
+            for d in reversed(st.decorator_list):
+                dv = self.eval(d, env)
+                if isinstance(dv, Opaque) and dv.tag == "identity-decorator":
+                    continue                      # functools.wraps(f): metadata only
+                try:
+                    val = self.apply_value(dv, [val], st)
+                except Unsupported:
+                    raise Unsupported(st, "decorated local function (@%s)" % src(d))
+            env[st.name] = val
         elif isinstance(st, ast.Assert):
             if not self.truth(self.eval(st.test, env), st.test):
                 raise AbstractRaise("AssertionError", st, explicit=True)
@@ -883,6 +931,10 @@ class Interp:
                 return TypeV(e.id)
             if e.id in BUILTINS:
                 return Builtin(e.id)
+            import builtins as _b
+            if isinstance(getattr(_b, e.id, None), type) and issubclass(getattr(_b, e.id), BaseException):
+                r = self.w.resolve_name(self, e.id, e)
+                return r if r is not None else Opaque("module:builtins." + e.id)
             if e.id in ("ValueError", "KeyError", "TypeError", "Exception", "IndexError"):
                 return TypeV(e.id)
             r = self.w.resolve_name(self, e.id, e)
@@ -1473,6 +1525,8 @@ class Interp:
             raise Unsupported(e, "constructor call")
         if isinstance(f, BoundMethod):
             return self.call_method(f, args, kwargs, e)
+        if isinstance(f, Opaque) and f.tag.startswith("module:") and _EXC_NAME.search(f.tag.rsplit(".", 1)[-1]) and "." in f.tag:
+            return ExcV(f.tag.rsplit(".", 1)[-1])         # nx.NetworkXError("...") builds an exception
         if isinstance(f, Opaque) and f.tag in ("module:functools.lru_cache", "module:functools.cache", "module:functools.wraps"):
             # memoisation does not change what a pure callable returns: lru_cache(maxsize=..)(f) -> f, cache(f) -> f
             if len(args) == 1 and not kwargs and isinstance(args[0], (PyFunc, LambdaV, LocalFuncV, BoundMethod)) and f.tag != "module:functools.wraps":
@@ -1614,8 +1668,9 @@ class Interp:
                     return IterV([args[0]] * args[1].v)
                 return None
             return RepeatV(args[0])
-        if fname == "count" and len(args) <= 1 and not kwargs:
-            return None
+        if fname == "count" and len(args) <= 2 and not kwargs and all(
+                isinstance(a, Const) and isinstance(a.v, int) and not isinstance(a.v, bool) for a in args):
+            return CountV(args[0].v if args else 0, args[1].v if len(args) > 1 else 1)
         if fname == "islice" and len(args) == 2 and isinstance(args[0], IterV) and isinstance(args[1], Const) and isinstance(args[1].v, int) \
                 and not isinstance(args[1].v, bool) and args[1].v >= 0 and not kwargs:
             taken = args[0].items[args[0].pos:args[0].pos + args[1].v]       # islice consumes only what it hands out
@@ -1768,6 +1823,10 @@ class Interp:
             return IterV(_concrete_seq(args[0]))
         if name == "reversed" and len(args) == 1 and isinstance(args[0], (ListObj, TupleV)) and not getattr(args[0], "has_prefix", False):
             return IterV(list(reversed(args[0].items)))
+        if name == "next" and 1 <= len(args) <= 2 and isinstance(args[0], CountV):
+            v = Const(args[0].start)
+            args[0].start += args[0].step
+            return v
         if name == "next" and 1 <= len(args) <= 2 and isinstance(args[0], IterV):
             it = args[0]
             if it.pos >= len(it.items):
@@ -1820,12 +1879,20 @@ class Interp:
                 start = sv.v
             seq = args[0].drain() if isinstance(args[0], IterV) else list(args[0].items)
             return ListObj([TupleV([Const(i + start), x]) for i, x in enumerate(seq)])
-        if name == "zip" and args and all(isinstance(a, (ListObj, TupleV, IterV, RepeatV)) for a in args) \
-                and not all(isinstance(a, RepeatV) for a in args):
-            finite = [a.drain() if isinstance(a, IterV) else list(a.items) for a in args if not isinstance(a, RepeatV)]
+        if name == "zip" and args and all(isinstance(a, (ListObj, TupleV, IterV, RepeatV, CountV)) for a in args) \
+                and not all(isinstance(a, (RepeatV, CountV)) for a in args):
+            finite = [a.drain() if isinstance(a, IterV) else list(a.items) for a in args if not isinstance(a, (RepeatV, CountV))]
             n = min(len(q) for q in finite)
             it_f = iter(finite)
-            seqs = [[a.value] * n if isinstance(a, RepeatV) else next(it_f) for a in args]
+            seqs = []
+            for a in args:
+                if isinstance(a, RepeatV):
+                    seqs.append([a.value] * n)
+                elif isinstance(a, CountV):
+                    seqs.append([Const(a.start + i * a.step) for i in range(n)])
+                    a.start += n * a.step           # a counter is consumed as far as it was read
+                else:
+                    seqs.append(next(it_f))
             return ListObj([TupleV(list(t)) for t in zip(*seqs)])
         r = self.w.call_builtin(self, name, args, kwargs, node)
         if r is not None:
